@@ -1166,8 +1166,14 @@ class RNN(Module):
 def _select_last_carry(sequence: A, seq_lengths: jnp.ndarray) -> A:
   last_idx = seq_lengths - 1
 
+  # `sequence` leaves are [time, *batch, *features] and `seq_lengths` is [*batch]:
+  # index every batch axis, not only the first one.
+  batch_idx = jnp.meshgrid(
+    *[jnp.arange(n) for n in jnp.shape(last_idx)], indexing='ij'
+  )
+
   def _slice_array(x: jnp.ndarray):
-    return x[last_idx, jnp.arange(x.shape[1])]
+    return x[(last_idx, *batch_idx)]
 
   return jax.tree_util.tree_map(_slice_array, sequence)
 
